@@ -180,6 +180,60 @@ def w_dep(task):
     return out
 
 
+# ---------------------------------------------------------------- (a') placements under ResetInserter / EnableInserter / DomainRenamer
+def check_wr(case):
+    want = M.wrapped_truth(case)
+    got = observe(lambda: G.build_wr(case))
+    return want, got
+
+
+WR_COUNTERS = ("evaluations", "distinct_nontrivial", "wr_designs", "wr_accept_expected", "wr_conflict_expected",
+               "wr_dsl_syntaxerror_expected", "wr_plain_baseline", "wr_legal_multi_domain_under_multi_domain_reset",
+               "wr_legal_multi_domain_under_multi_domain_enable", "wr_conflict_removed_by_merging_domains",
+               "wr_conflict_kept_across_modules_after_merge", "wr_conflict_kept_under_inserter", "wr_nested_wrappers")
+
+
+def w_wr(task):
+    key, lo, hi = task
+    out = {"cov": {k: 0 for k in WR_COUNTERS}, "samples": [], "violations": [], "kinds": {}, "by_style": {}}
+    cov = out["cov"]
+    for case in _SPACE[key][lo:hi]:
+        want, got = check_wr(case)
+        cov["evaluations"] += 1
+        cov["distinct_nontrivial"] += 1
+        cov["wr_designs"] += 1
+        cov[{"ok": "wr_accept_expected", "DriverConflict": "wr_conflict_expected",
+             "SyntaxError": "wr_dsl_syntaxerror_expected"}[want]] += 1
+        w = case["wrap"]
+        if not w:
+            cov["wr_plain_baseline"] += 1
+        else:
+            chain = w["chain"]
+            cov["wr_nested_wrappers"] += len(chain) > 1
+            plain = M.wrapped_truth(dict(case, wrap=None, frontend="frag"))
+            scope_doms = {d[2] for d in case["drivers"] if w["pos"] == "top" or d[1] == "child"}
+            for kind, name in (("R", "reset"), ("E", "enable")):
+                if want == "ok" and any(k == kind and a != "value" and len(scope_doms & set(a)) >= 2 for k, a in chain):
+                    cov[f"wr_legal_multi_domain_under_multi_domain_{name}"] += 1
+            if want == "ok" and plain == "DriverConflict":
+                cov["wr_conflict_removed_by_merging_domains"] += 1
+            if want == "DriverConflict" and plain == "DriverConflict":
+                if any(k == "D" for k, a in chain):
+                    merged = M.apply_wrappers(case)
+                    if len({d[2] for d in merged}) < len({d[2] for d in case["drivers"]}):
+                        cov["wr_conflict_kept_across_modules_after_merge"] += 1
+                else:
+                    cov["wr_conflict_kept_under_inserter"] += 1
+        tag = "wr:plain" if not w else "wr:" + "+".join(k for k, a in w["chain"])
+        bs = out["by_style"].setdefault(tag, [0, 0])
+        bs[0 if want == "ok" else 1] += 1
+        if got != want:
+            out["violations"].append({"sig": f"{G.wr_sig(case)}:got={got}:want={want}",
+                                      "what": f"wrapped placement {G.wr_sig(case)}: conversion outcome {got}, expected {want}",
+                                      "payload": case})
+    return out
+
+
 # ---------------------------------------------------------------- (b'') run-time part selects
 def check_ps(case):
     layout, groups = G.ps_groups(case)
@@ -238,7 +292,7 @@ def w_ps(task):
 
 
 def _dispatch(t):
-    return (t[0], {"drv": w_drv, "dep": w_dep, "ps": w_ps}[t[0]](t[1]))
+    return (t[0], {"drv": w_drv, "dep": w_dep, "ps": w_ps, "wr": w_wr}[t[0]](t[1]))
 
 
 def plan(rep):
@@ -276,12 +330,23 @@ def plan(rep):
         for layout in layouts:
             for lo in range(0, len(_SPACE[key]), step):
                 tasks.append(("dep", (layout, (key, lo, lo + step), st)))
+    # two / three sync-domain placements under ResetInserter / EnableInserter / DomainRenamer (same space in both tiers)
+    wr_widths = [(2,), (1, 1)]
+    key = ("wr",)
+    _SPACE[key] = [c for w in wr_widths for c in G.wr_cases(w)]
+    for lo in range(0, len(_SPACE[key]), 400):
+        tasks.append(("wr", (key, lo, lo + 400)))
     # run-time part selects of every shape feeding one window bit / the whole window back (same space in both tiers)
     key = ("ps",)
     _SPACE[key] = list(G.ps_cases())
     for lo in range(0, len(_SPACE[key]), 300):
         tasks.append(("ps", (key, lo, lo + 300)))
-    bounds = {"part_select": {"shapes": ["bit_select w=1..3", "word_select w=1..2"], "value_width": [3, 6], "signed": [False, True],
+    bounds = {"wrapped_placements": {"widths": [list(w) for w in wr_widths], "drivers": "ordered pairs and multisets of 3, logic in "
+                                     "top|child x sync|d1|d2 x every bit subset, >= 2 domains", "wrapper_chains": len(G.WR_CHAINS),
+                                     "positions": ["top", "child"], "frontends": "DSL (wrapped unless the DSL rejects "
+                                     "the placement at statement time); raw Fragment for all pairs, and for the triples the DSL "
+                                     "rejects (renamer chains only)", "designs": len(_SPACE[("wr",)])},
+              "part_select": {"shapes": ["bit_select w=1..3", "word_select w=1..2"], "value_width": [3, 6], "signed": [False, True],
                               "offset_width": [1, 3], "value": list(G.PS_SRCS), "offset": list(G.PS_OFFS), "path": list(G.PS_VIAS),
                               "taken": "each single window bit and the whole window", "target": "every bit / every aligned slice",
                               "designs": len(_SPACE[key])},
@@ -339,6 +404,10 @@ def run(rep):
                "the high slice / the last bit, with the dependency placed in the default, the override value, the override "
                "condition or rotating over the signals (chains), plus a leading / trailing unconditional replacement of the "
                "default; a bit depends on an earlier assignment unless a later unconditional assignment covers it. "
+               "(a') every 2-driver (ordered) / 3-driver (multiset) placement over >= 2 of the domains sync|d1|d2 in top|child, plain and "
+               "wrapped at top / at child in every listed chain of ResetInserter / EnableInserter (value form, dicts naming 1..3 "
+               "domains) / DomainRenamer (maps keeping domains apart and maps merging them) / nestings of two; expected = the same "
+               "set-arithmetic oracle on the owners after the renamers' substitution (inserters change nothing). "
                "(b'') every run-time bit_select(off, 1..3) / word_select(off, 1..2) on a (signed|unsigned) value of width 3..6 (whole "
                "signal, low or high slice, directly or through a second signal) with a 1..3 bit offset (free input or bits of the "
                "same signal), each single window bit and the whole window assigned to every bit / slice of the signal: "
@@ -370,6 +439,8 @@ def run(rep):
                 "ov_accept_default_replaced_by_leading_unconditional_assignment", "ov_accept_near_miss_with_override",
                 "ov_dead_default_unspecified", "ov_cycle_chain_over_2_signals", "ov_cycle_chain_over_3_signals"):
         rep.require(rep.cov.get(key, 0) > 0, f"{key} is zero")
+    for key in WR_COUNTERS[3:]:
+        rep.require(rep.cov.get(key, 0) > 0, f"{key} is zero")
     for key in ("ps_cycle_expected", "ps_accept_expected", "ps_coarse_only_unspecified", "ps_cycle_needs_stride_1",
                 "ps_cycle_through_offset_only", "ps_cycle_through_sign_bit_only", "ps_cycle_single_window_bit",
                 "ps_cycle_whole_window"):
@@ -394,6 +465,8 @@ def run(rep):
 def replay(payload):
     if payload["part"] == "drv":
         want, got = check_drv(payload)
+    elif payload["part"] == "wr":
+        want, got = check_wr(payload)
     elif payload["part"] == "ps":
         want, got = check_ps(payload)[:2]
     else:
